@@ -271,7 +271,7 @@ theorem wv_ok_iff (o : Opts) (ts : List Tok) (e : Enc) (v : Bytes) (hlen : ts.le
     (h : runToks (Encoder.new o) ts = some e) :
     (writeValue e v).2 = none ↔
       ∃ out rest,
-        reformatValue o (2 * v.length + 2) (beforeToken e (valueKind v)) (skipWS v) e.m.depth = .ok (out, rest) ∧
+        reformatValue o (3 * v.length + 4) (beforeToken e (valueKind v)) (skipWS v) e.m.depth = .ok (out, rest) ∧
         skipWS rest = [] ∧
         Viable o.maxDepth ((ts.map kindOf) ++ [firstKind (valueKind v)]) ∧
         (valueKind v = 0x22 → o.allowDup = false → isNamePos (track o (PDA.init, []) ts).1 = true →
@@ -350,7 +350,7 @@ theorem wv_ok_iff_hist (o : Opts) (cs : List Call) (e : Enc) (v : Bytes) (hlen :
     (h : runOps (Encoder.new o) cs = some e) :
     (writeValue e v).2 = none ↔
       ∃ out rest,
-        reformatValue o (2 * v.length + 2) (beforeToken e (valueKind v)) (skipWS v) e.m.depth = .ok (out, rest) ∧
+        reformatValue o (3 * v.length + 4) (beforeToken e (valueKind v)) (skipWS v) e.m.depth = .ok (out, rest) ∧
         skipWS rest = [] ∧
         Viable o.maxDepth (((histToks o cs).map kindOf) ++ [firstKind (valueKind v)]) ∧
         (valueKind v = 0x22 → o.allowDup = false → isNamePos (track o (PDA.init, []) (histToks o cs)).1 = true →
@@ -392,7 +392,7 @@ grammar in Props/C01 `valid_sound`) accept the same texts.  With it, `wv_ok_iff`
 value under the options". -/
 def reformat_valid_full : Prop :=
   ∀ (o : Opts) (v : Bytes), o.maxDepth = JsonV.Model.Validate.maxNestingDepth →
-    ((∃ out rest, reformatValue o (2 * v.length + 2) [] (skipWS v) 1 = .ok (out, rest) ∧ skipWS rest = []) ↔
+    ((∃ out rest, reformatValue o (3 * v.length + 4) [] (skipWS v) 1 = .ok (out, rest) ∧ skipWS rest = []) ↔
       JsonV.Model.Validate.isValid ⟨o.allowInvalidUTF8, o.allowDup⟩ v = true)
 
 end Encoder
